@@ -45,9 +45,14 @@ type spec struct {
 	Out       string   `json:"out"`         // file name under lean/MidiModel/Generated/
 	Imports   []string `json:"imports"`     // further Lean modules to import (translations of the extern packages)
 	Extern    []string `json:"extern_pkgs"` // packages (relative to the module) whose functions are emitted elsewhere
+	NilIsEmpty bool    `json:"nil_is_empty"` // translate `slice == nil` as "is empty" (sound where the slice is never empty-but-non-nil)
 	Roots     []struct {
-		Pkg   string   `json:"pkg"`
-		Names []string `json:"names"`
+		Pkg      string   `json:"pkg"`
+		Names    []string `json:"names"`
+		Closures []struct { // function literals assigned to a local variable: `var <Var> = func(...) {...}` inside <Func>
+			Func string `json:"func"`
+			Var  string `json:"var"`
+		} `json:"closures"`
 	} `json:"roots"`
 }
 
@@ -114,6 +119,17 @@ func (l *loader) load(path string) (*pkgInfo, error) {
 
 type unsupported struct{ msg string }
 
+// closure: a function literal bound to a local variable of an enclosing function; its captured variables become the
+// fields of an environment structure (captured func values: events of its trace)
+type closure struct {
+	p       *pkgInfo
+	outer   *types.Func
+	varName string
+	lit     *ast.FuncLit
+	vars    []*types.Var // captured, not func-typed, in order of first use
+	funcs   []*types.Var // captured func-typed
+}
+
 type tr struct {
 	l       *loader
 	sp      spec
@@ -127,6 +143,12 @@ type tr struct {
 	monadic map[*types.Func]bool
 	mutates map[*types.Func]bool
 	usedFields map[*types.Var]bool
+	closures []*closure
+	// closure being translated: captured variables live in `env`
+	env      map[types.Object]bool
+	envFuncs map[types.Object]*types.Signature
+	recvName string
+	closureBase string
 	// per function
 	p       *pkgInfo
 	recv    *types.Var
@@ -189,6 +211,24 @@ func main() {
 			roots = append(roots, f)
 		}
 	}
+	for _, r := range sp.Roots {
+		if len(r.Closures) == 0 {
+			continue
+		}
+		pth := sp.Module + "/" + r.Pkg
+		if r.Pkg == "" || r.Pkg == "." {
+			pth = sp.Module
+		}
+		p, err := l.load(pth)
+		if err != nil {
+			fmt.Fprintln(os.Stderr, "go2lean:", err)
+			os.Exit(1)
+		}
+		t.index(p)
+		for _, c := range r.Closures {
+			t.addClosure(p, c.Func, c.Var)
+		}
+	}
 	for _, f := range roots {
 		t.visit(f)
 	}
@@ -209,6 +249,11 @@ func main() {
 		}
 		body.WriteString(t.funcDecl(f))
 		body.WriteString("\n")
+	}
+	var cbody strings.Builder
+	for _, c := range t.closures {
+		cbody.WriteString(t.closureDecl(c))
+		cbody.WriteString("\n")
 	}
 	fmt.Printf("-- GENERATED by tools/go2lean from the working tree; do not edit. Regenerated on every run of ./check.\n")
 	fmt.Printf("import MidiModel.GoSem\n")
@@ -258,6 +303,7 @@ func main() {
 	}
 	fmt.Print(sout.String())
 	fmt.Print(body.String())
+	fmt.Print(cbody.String())
 	fmt.Printf("end %s\n", sp.Namespace)
 }
 
@@ -268,6 +314,150 @@ func (t *tr) isExtern(f *types.Func) bool {
 		}
 	}
 	return false
+}
+
+func (t *tr) addClosure(p *pkgInfo, fn, vn string) {
+	outer := t.lookup(p, fn)
+	if outer == nil {
+		t.fail(nil, "closure: function %s not found", fn)
+	}
+	fd := t.funcs[outer]
+	var lit *ast.FuncLit
+	ast.Inspect(fd.Body, func(n ast.Node) bool {
+		switch x := n.(type) {
+		case *ast.ValueSpec:
+			for i, id := range x.Names {
+				if id.Name == vn && i < len(x.Values) {
+					if fl, ok := x.Values[i].(*ast.FuncLit); ok {
+						lit = fl
+					}
+				}
+			}
+		case *ast.AssignStmt:
+			for i, l := range x.Lhs {
+				if id, ok := l.(*ast.Ident); ok && id.Name == vn && i < len(x.Rhs) {
+					if fl, ok := x.Rhs[i].(*ast.FuncLit); ok {
+						lit = fl
+					}
+				}
+			}
+		}
+		return true
+	})
+	if lit == nil {
+		t.fail(fd, "closure: no function literal bound to %s in %s", vn, fn)
+	}
+	c := &closure{p: p, outer: outer, varName: vn, lit: lit}
+	seen := map[types.Object]bool{}
+	ast.Inspect(lit.Body, func(n ast.Node) bool {
+		id, ok := n.(*ast.Ident)
+		if !ok {
+			return true
+		}
+		v, ok := p.info.Uses[id].(*types.Var)
+		if !ok || v.IsField() || seen[v] || v.Pkg() == nil || v.Parent() == v.Pkg().Scope() {
+			return true
+		}
+		// declared in the enclosing function, outside the literal
+		if v.Pos() >= lit.Pos() && v.Pos() < lit.End() {
+			return true
+		}
+		if !(v.Pos() >= fd.Pos() && v.Pos() < fd.End()) {
+			return true
+		}
+		seen[v] = true
+		if _, isFn := v.Type().Underlying().(*types.Signature); isFn {
+			c.funcs = append(c.funcs, v)
+		} else {
+			c.vars = append(c.vars, v)
+		}
+		return true
+	})
+	t.closures = append(t.closures, c)
+	// callees of the literal
+	ast.Inspect(lit.Body, func(n ast.Node) bool {
+		if ce, ok := n.(*ast.CallExpr); ok {
+			if g := t.callee(p, ce); g != nil {
+				if _, have := t.funcs[g]; !have && g.Pkg() != nil && strings.HasPrefix(g.Pkg().Path(), t.sp.Module) {
+					if q, err := t.l.load(g.Pkg().Path()); err == nil {
+						t.index(q)
+						g = t.sameFunc(q, g)
+					}
+				}
+				if _, have := t.funcs[g]; have {
+					t.visit(g)
+				}
+			}
+		}
+		return true
+	})
+}
+
+func (t *tr) closureDecl(c *closure) string {
+	t.p = c.p
+	t.fn = nil
+	t.mon = true
+	t.tmp = 0
+	t.recv, t.recvPtr = nil, true
+	t.recvName = "env"
+	t.named = nil
+	t.env = map[types.Object]bool{}
+	t.envFuncs = map[types.Object]*types.Signature{}
+	defer func() { t.env, t.envFuncs, t.recvName = nil, nil, "" }()
+	base := t.funcName(c.outer) + "." + name(c.varName)
+	var sb strings.Builder
+	pos := t.l.fset.Position(c.lit.Pos())
+	// environment
+	if len(c.funcs) > 0 {
+		fmt.Fprintf(&sb, "inductive %s.Ev where\n", base)
+		for _, f := range c.funcs {
+			sig := f.Type().Underlying().(*types.Signature)
+			t.envFuncs[f] = sig
+			fmt.Fprintf(&sb, "  | %s", name(f.Name()))
+			for j := 0; j < sig.Params().Len(); j++ {
+				if sig.Params().At(j).Type().String() == "error" {
+					continue
+				}
+				fmt.Fprintf(&sb, " (a%d : %s)", j, t.leanType(c.lit, sig.Params().At(j).Type()))
+			}
+			sb.WriteString("\n")
+		}
+		sb.WriteString("deriving Repr, DecidableEq\n\n")
+	}
+	fmt.Fprintf(&sb, "/-- the variables of `%s` that the function literal `%s` captures -/\nstructure %s.Env where\n", c.outer.Name(), c.varName, base)
+	for _, v := range c.vars {
+		t.env[v] = true
+		fmt.Fprintf(&sb, "  %s : %s := %s\n", name(v.Name()), t.leanType(c.lit, v.Type()), t.zero(c.lit, v.Type()))
+	}
+	if len(c.funcs) > 0 {
+		fmt.Fprintf(&sb, "  trace : List %s.Ev := []\n", base)
+	}
+	sb.WriteString("deriving Repr\n\n")
+	sig := c.p.info.Types[c.lit].Type.(*types.Signature)
+	t.results = sig.Results()
+	if sig.Results().Len() > 0 {
+		t.fail(c.lit, "closure with results")
+	}
+	params := []string{fmt.Sprintf("(env : %s.Env)", base)}
+	var muts []string
+	for i := 0; i < sig.Params().Len(); i++ {
+		pv := sig.Params().At(i)
+		params = append(params, fmt.Sprintf("(%s : %s)", name(pv.Name()), t.leanType(c.lit, pv.Type())))
+		muts = append(muts, name(pv.Name()))
+	}
+	fmt.Fprintf(&sb, "/-- `%s` in `%s` (%s:%d) -/\n", c.varName, c.outer.FullName(), filepath.Base(pos.Filename), pos.Line)
+	fmt.Fprintf(&sb, "def %s %s : Except String (%s.Env) := do\n  let mut env := env\n", base, strings.Join(params, " "), base)
+	for _, m := range muts {
+		if assigned(c.lit.Body, m) {
+			fmt.Fprintf(&sb, "  let mut %s := %s\n", m, m)
+		}
+	}
+	t.closureBase = base
+	t.block(&sb, c.lit.Body.List, "  ")
+	if !endsInReturn(c.lit.Body.List) {
+		sb.WriteString("  return env\n")
+	}
+	return sb.String()
 }
 
 func (t *tr) index(p *pkgInfo) {
@@ -739,6 +929,7 @@ func (t *tr) funcDecl(f *types.Func) string {
 		if t.recv.Name() == "" || t.recv.Name() == "_" {
 			rn = "self"
 		}
+		t.recvName = rn
 		params = append(params, fmt.Sprintf("(%s : %s)", rn, t.structName(recvNamed(sig.Recv().Type()))))
 	}
 	var muts []string
@@ -880,7 +1071,7 @@ func (t *tr) returnStmt(n *ast.ReturnStmt, vals []string) string {
 		vals = append([]string{}, t.named...)
 	}
 	if t.recvPtr {
-		vals = append([]string{name(t.recv.Name())}, vals...)
+		vals = append([]string{t.recvName}, vals...)
 	}
 	switch len(vals) {
 	case 0:
@@ -938,6 +1129,10 @@ func (t *tr) assignTo(sb *strings.Builder, lhs ast.Expr, val string, define bool
 	case *ast.Ident:
 		if x.Name == "_" {
 			fmt.Fprintf(sb, "%slet _ := %s\n", ind, val)
+			return
+		}
+		if o := t.p.info.Uses[x]; o != nil && t.env[o] {
+			fmt.Fprintf(sb, "%senv := { env with %s := %s }\n", ind, name(x.Name), val)
 			return
 		}
 		if define && t.p.info.Defs[x] != nil {
@@ -1048,7 +1243,7 @@ func (t *tr) stmt(sb *strings.Builder, s ast.Stmt, ind string) bool {
 			fmt.Fprintf(sb, "%slet %s := %s\n", ind, tmp, t.expr(x.Results[0]))
 			vals = []string{tmp}
 			if t.recvPtr {
-				fmt.Fprintf(sb, "%sreturn (%s, %s)\n", ind, name(t.recv.Name()), tmp)
+				fmt.Fprintf(sb, "%sreturn (%s, %s)\n", ind, t.recvName, tmp)
 				return true
 			}
 		} else {
@@ -1294,6 +1489,28 @@ func (t *tr) callStmt(sb *strings.Builder, c *ast.CallExpr, lhs []ast.Expr, defi
 			return true
 		}
 	}
+	// call of a captured function value: an event in the environment's trace
+	if id, ok := c.Fun.(*ast.Ident); ok {
+		if o := t.p.info.Uses[id]; o != nil && t.envFuncs[o] != nil {
+			sig := t.envFuncs[o]
+			if lhs != nil {
+				t.fail(c, "result of a captured function")
+			}
+			var args []string
+			for j, a := range c.Args {
+				if sig.Params().At(j).Type().String() == "error" {
+					continue
+				}
+				args = append(args, t.atom(a))
+			}
+			ev := fmt.Sprintf("%s.Ev.%s", t.closureBase, name(id.Name))
+			if len(args) > 0 {
+				ev = "(" + ev + " " + strings.Join(args, " ") + ")"
+			}
+			fmt.Fprintf(sb, "%senv := { env with trace := env.trace ++ [%s] }\n", ind, ev)
+			return true
+		}
+	}
 	// immediately applied function literal: inlined
 	if fl, ok := c.Fun.(*ast.FuncLit); ok {
 		if lhs != nil || fl.Type.Results != nil && len(fl.Type.Results.List) > 0 {
@@ -1519,6 +1736,9 @@ func (t *tr) expr(e ast.Expr) string {
 			return "[]"
 		case "true", "false":
 			return x.Name
+		}
+		if o := t.p.info.Uses[x]; o != nil && t.env[o] {
+			return "env." + name(x.Name)
 		}
 		return name(x.Name)
 	case *ast.SelectorExpr:
@@ -1804,7 +2024,13 @@ func (t *tr) cond(e ast.Expr) string {
 					}
 				}
 				if _, ok := t.p.info.Types[x.X].Type.Underlying().(*types.Slice); ok {
-					t.fail(e, "comparison of a slice with nil (nil and empty slices are not distinguished)")
+					if !t.sp.NilIsEmpty {
+						t.fail(e, "comparison of a slice with nil (nil and empty slices are not distinguished)")
+					}
+					if x.Op == token.EQL {
+						return fmt.Sprintf("%s.length = 0", t.atom(x.X))
+					}
+					return fmt.Sprintf("%s.length ≠ 0", t.atom(x.X))
 				}
 			}
 			op := "="
